@@ -204,7 +204,7 @@ var pidName = map[string]string{
 
 var aidSpelling = map[string]string{
 	"UNSUPPORTED": `"ACTION_UNSUPPORTED"`, "FEE": `"ACTION_FEE"`, "SWAP": `"ACTION_SWAP"`,
-	"A7": `7`, "N0": `0`, "N1": `1`, "N2": `2`, "AUNKNOWN": `"ACTION_FOO"`,
+	"A7": `7`, "A9": `9`, "N0": `0`, "N1": `1`, "N2": `2`, "AUNKNOWN": `"ACTION_FOO"`,
 }
 
 var aidName = map[string]string{
